@@ -362,6 +362,7 @@ type TableState struct {
 	keySeen map[string]bool
 	Lookups []lookupRec
 	Univ    []func(k []*smt.Term) // universal facts instantiated on every (existing and future) key
+	univN0  []int                 // log length each universal fact refers to
 	Seq0    *smt.Term
 	Inserts int
 	env     *Env
@@ -665,6 +666,7 @@ type Env struct {
 	Bank     *BankState
 	Ctx      *CtxState
 	Events   []Value
+	saved    *effectsSnap
 	Calls    []RecordedCall
 	snapshot *envCheckpoint
 }
@@ -820,6 +822,17 @@ func (e *Env) rollback(cp *envCheckpoint) {
 	for k, ts := range e.Tables {
 		ts.Log = ts.Log[:cp.logLens[k]]
 		ts.Inserts = cp.inserts[k]
+		// universal facts about table contents that no longer exist are dropped; those about
+		// the pre-state stay (they tie a second execution's iterators to the first's)
+		var keep []func(k []*smt.Term)
+		var keepN []int
+		for i, u := range ts.Univ {
+			if i < len(ts.univN0) && ts.univN0[i] <= cp.logLens[k] {
+				keep = append(keep, u)
+				keepN = append(keepN, ts.univN0[i])
+			}
+		}
+		ts.Univ, ts.univN0 = keep, keepN
 	}
 	if e.Bank != nil {
 		e.Bank.Log = e.Bank.Log[:cp.bank]
